@@ -1,9 +1,7 @@
 CONSTANTS
-  MaxBody = 6
+  MaxBody = 3
   EscapedSkip = "one"
 INIT Init
 NEXT Next
-INVARIANT QuoteAgrees
-INVARIANT TypeOK
-PROPERTY Progress
+INVARIANT EmitCase
 CHECK_DEADLOCK FALSE
